@@ -8,6 +8,7 @@ import (
 	"strconv"
 	"syscall"
 	"time"
+	"unsafe"
 
 	"verif/sim/simrt"
 )
@@ -345,7 +346,7 @@ func listenTrap(n *Net, ip net.IP, port int) (net.Listener, error) {
 	op := &listenOp{n: n, laddr: &net.TCPAddr{IP: cloneIP(ip), Port: port}}
 	simrt.Trap(op, true)
 	if op.err != nil {
-		return nil, op.err
+		return nil, cloneErr(op.err)
 	}
 	return &progListener{l: op.l}, nil
 }
@@ -373,7 +374,7 @@ func (p *progListener) Accept() (net.Conn, error) {
 	op := &acceptOp{l: p.l}
 	simrt.Trap(op, true)
 	if op.err != nil {
-		return nil, op.err
+		return nil, cloneErr(op.err)
 	}
 	return &TCPConn{e: op.e}, nil
 }
@@ -451,7 +452,7 @@ func dialTrap(n *Net, laddr, raddr *net.TCPAddr) (*TCPConn, error) {
 	}
 	simrt.Trap(op, true)
 	if op.err != nil {
-		return nil, op.err
+		return nil, cloneErr(op.err)
 	}
 	return &TCPConn{e: op.e}, nil
 }
@@ -539,9 +540,13 @@ func (c *TCPConn) Read(b []byte) (int, error) {
 	op := &readOp{e: c.e, max: len(b)}
 	simrt.Trap(op, true)
 	if op.err != nil {
-		return 0, op.err
+		return 0, cloneErr(op.err)
 	}
-	return copyInto(b, op.data), nil
+	m := copyInto(b, op.data)
+	if m > 0 {
+		simrt.RaceWriteRange(unsafe.Pointer(&b[0]), m)
+	}
+	return m, nil
 }
 
 type writeOp struct {
@@ -620,9 +625,12 @@ func (c *TCPConn) Write(b []byte) (int, error) {
 	if g != nil {
 		name = g.Name
 	}
+	if len(b) > 0 {
+		simrt.RaceReadRange(unsafe.Pointer(&b[0]), len(b))
+	}
 	op := &writeOp{e: c.e, data: cloneBytes(b), g: name}
 	simrt.Trap(op, true)
-	return op.n, op.err
+	return op.n, cloneErr(op.err)
 }
 
 type closeOp struct {
@@ -644,7 +652,7 @@ func (o *closeOp) OpName() string { return "close-tcp" }
 func (c *TCPConn) Close() error {
 	op := &closeOp{e: c.e}
 	simrt.Trap(op, true)
-	return op.err
+	return cloneErr(op.err)
 }
 
 //go:norace
